@@ -528,9 +528,11 @@ pub fn k_resume_f6_c3<N: Nd>(nd: &mut N) {
     k_resume::<N, 6, 3>(nd)
 }
 
-// k_resume is not registered: the solver exhausts its memory limit on it (symbolic choice between
-// compaction and growth with symbolic offsets into the moved buffer).  The instances below enumerate
-// the geometry concretely around the solver call and keep the bytes symbolic.
+// k_resume is not registered: the solver exhausts its memory limit on it.  The narrower instances
+// below (branch fixed, short first read, failing read) are kept as pilots (tier=pilot, never part of
+// a registered check): unlike their FASTA counterparts they still exhaust 20-44 GB in CBMC's
+// post-processing, although the same steps called one after the other through the hooks
+// (pilot.rs, q5-q7) take 40-190 s.
 
 /// one concrete geometry: group start `p` in a full buffer of capacity CAP, file length `n`, first
 /// read of the refill delivering `c1` bytes (0 = as much as fits); `grow`: the group is the first
@@ -554,9 +556,12 @@ fn resume_at<N: Nd, const F: usize, const CAP: usize>(nd: &mut N, file: &[u8; F]
         byte: p as u64,
         state: 1,
     };
-    let mut src = Src::<F>::plain(*file, n);
+    // the window is filled from a source of concrete length (the first read then delivers exactly
+    // CAP bytes as a constant); the true length n (>= CAP) is set afterwards
+    let mut src = Src::<F>::plain(*file, F);
     src.chunk[1] = c1;
-    let br = window::<F>(src, CAP, 0);
+    let mut br = window::<F>(src, CAP, 0);
+    br.get_mut().len = n;
     let pol = RecPolicy { answer: if grow { Some(2 * CAP) } else { None }, asked: 0, n: 0 };
     let mut r = fastq::Reader::verif_from_parts(br, pol, fastq::VerifBufPos::new(st.pos0, st.pos1, st.seq, st.sep, st.qual), st.inc, st.line, st.byte, st.state);
     let res = r.verif_resume_incomplete_search((lfs_in + 1) as u8, make_room);
@@ -641,6 +646,52 @@ pub fn k_resume_grow<N: Nd, const F: usize, const CAP: usize>(nd: &mut N) {
     resume_at::<N, F, CAP>(nd, &file, make_room, 0, n, c1, true);
 }
 
+/// K: `resume_incomplete_search(make_room = true)` with the first read of the refill failing with a
+/// hard error of any kind: the error surfaces unchanged and is terminal (no later call can use the
+/// coordinates that the compaction has moved)
+pub fn k_resume_fault<N: Nd, const F: usize, const CAP: usize>(nd: &mut N) {
+    use crate::c09::RecPolicy;
+    let file: [u8; F] = any_file::<N, F>(nd);
+    let n = nd.usize_in(CAP, F);
+    let p = nd.usize_in(1, CAP - 1);
+    let kind = nd.u8_in(0, 3);
+    nd.note("format", b"fastq");
+    nd.note("file", &file[p..n]);
+    nd.note_num("cap", CAP as u64);
+    let f = &file[..n];
+    let g = fq_group(f, p);
+    let lfs_in = count_lf(f, p, CAP);
+    nd.assume(lfs_in < 4);
+    let mut src = Src::<F>::plain(file, F);
+    src.fault_at = 1;
+    src.fault_kind = kind;
+    let mut br = window::<F>(src, CAP, 0);
+    br.get_mut().len = n;
+    let pol = RecPolicy { answer: None, asked: 0, n: 0 };
+    let bp = fastq::VerifBufPos::new(p, 0, if lfs_in >= 1 { g.starts[1] } else { 0 }, if lfs_in >= 2 { g.starts[2] } else { 0 }, if lfs_in >= 3 { g.starts[3] } else { 0 });
+    let mut r = fastq::Reader::verif_from_parts(br, pol, bp, 0, 1, p as u64, 1);
+    let res = r.verif_resume_incomplete_search((lfs_in + 1) as u8, true);
+    match res {
+        Ok(_) => {
+            vassert!(false, "C14 an error of the source during a refill is never swallowed");
+        }
+        Err(fastq::Error::Io(e)) => {
+            vassert!(e.kind() == kind_of(kind), "C14 the error kind of the source is preserved by the refill");
+            vassert!(r.verif_state() == 3, "C14 a failed refill is terminal: later calls report the end of the input");
+            vassert!(r.verif_state() == 3, "C06 a failed refill is terminal: later calls do not use the moved coordinates");
+            cover!(true, "refill fails");
+            std::mem::forget(e);
+        }
+        Err(e) => {
+            vassert!(false, "C14 a source error is not turned into another error");
+            std::mem::forget(e);
+        }
+    }
+    std::mem::forget(r);
+}
+pub fn k_resume_fault_f7_c4<N: Nd>(nd: &mut N) {
+    k_resume_fault::<N, 7, 4>(nd)
+}
 pub fn k_resume_compact_f7_c4<N: Nd>(nd: &mut N) {
     k_resume_compact::<N, 7, 4>(nd)
 }
@@ -650,10 +701,13 @@ pub fn k_resume_grow_f7_c4<N: Nd>(nd: &mut N) {
 
 harnesses! {
     @reg registry3;
-    /// @meta props=X00 tier=pilot kind=K stage2=pub timeout=3600 mem=44 unwind=10 unwindset="_resume_incomplete_search:2;seq_io::fill_buf:6" bounds="fastq::Reader::resume_incomplete_search(make_room) for an unfinished group at every start 1..3 of a full buffer of capacity 4 over every file <= 7 bytes, first refill read of 1..3 bytes or complete; policy refusing growth"
+    /// @meta props=X00 tier=pilot kind=K stage2=pub timeout=1500 mem=16 unwind=10 unwindset="_resume_incomplete_search:2;seq_io::fill_buf:6" bounds="fastq::Reader::resume_incomplete_search(make_room) for an unfinished group at every start 1..3 of a full buffer of capacity 4 over every file <= 7 bytes, the first read of the refill failing with one of 4 error kinds"
+    #[kani::stub(std::string::String::from_utf8_lossy, crate::src::stub_lossy_empty)]
+    fqk_resume_fault_f7_c4 => k_resume_fault_f7_c4;
+    /// @meta props=X00 tier=pilot kind=K stage2=pub timeout=2400 mem=20 unwind=10 unwindset="_resume_incomplete_search:2;seq_io::fill_buf:6" bounds="fastq::Reader::resume_incomplete_search(make_room) for an unfinished group at every start 1..3 of a full buffer of capacity 4 over every file <= 7 bytes, first refill read of 1..3 bytes or complete; policy refusing growth"
     #[kani::stub(std::string::String::from_utf8_lossy, crate::src::stub_lossy_empty)]
     fqk_resume_compact_f7_c4 => k_resume_compact_f7_c4;
-    /// @meta props=X00 tier=pilot kind=K stage2=pub timeout=3600 mem=44 unwind=10 unwindset="_resume_incomplete_search:2;seq_io::fill_buf:7" bounds="fastq::Reader::resume_incomplete_search for an unfinished first group in a full buffer of capacity 4 over every file <= 7 bytes, first read after the growth of 1..4 bytes or complete, policy granting capacity 8"
+    /// @meta props=X00 tier=pilot kind=K stage2=pub timeout=2400 mem=20 unwind=10 unwindset="_resume_incomplete_search:2;seq_io::fill_buf:7" bounds="fastq::Reader::resume_incomplete_search for an unfinished first group in a full buffer of capacity 4 over every file <= 7 bytes, first read after the growth of 1..4 bytes or complete, policy granting capacity 8"
     #[kani::stub(std::string::String::from_utf8_lossy, crate::src::stub_lossy_empty)]
     fqk_resume_grow_f7_c4 => k_resume_grow_f7_c4;
 }
